@@ -374,7 +374,9 @@ chunk* small_free_memory_list::find_chunk_impl(unsigned char* node, chunk_base* 
 
         first = first->next;
         last  = last->prev;
-    } while (!greater(first, last));
+        // a cursor that has stepped onto the proxy node has left the (address-ordered) chunks:
+        // everything in between has been looked at; the proxy's own address says nothing
+    } while (first != &base_ && last != &base_ && !greater(first, last));
     return nullptr;
 }
 
